@@ -1,5 +1,6 @@
 import Sif.Model.Mint
 import Sif.Model.RewardsIssuance
+import Sif.Model.BridgeCredit
 /-
   C20 — decidable statements of bounded issuance.  Core only: the same predicates the theorems of
   Sif/Props/C20.lean talk about are evaluated by the driver on the values the *implementation*
@@ -31,6 +32,19 @@ def mintStepOK (cap perBlock cPrev cNow supPrev supNow holdPrev holdNow : Nat) :
     and software upgrades (which must not touch the mint state) -/
 def mintTotalOK (cap c0 mintedSum cNow : Nat) : Bool :=
   decide (cNow = c0 + mintedSum) && decide (c0 + mintedSum ≤ cap)
+
+/-- One bridge-claim transaction as observed: a claim transaction creates rowan only when it takes
+    its prophecy from not-final to SUCCESS, and then exactly the credited amount; in particular a
+    claim on a prophecy that was already final creates nothing. -/
+def bridgeTxOK (finalBefore accepted successAfter rowan : Bool) (amount supplyDelta : Nat) : Bool :=
+  decide (supplyDelta = (if !finalBefore && accepted && successAfter && rowan then amount else 0))
+
+/-- The supply equation of the property, as observed over a history: every rowan created since the
+    baseline is ecosystem mint (counter delta), reward allocation (created by the clp EndBlocker)
+    or a consensus-approved bridge credit, each prophecy counted once. -/
+def supplyEqOK (supply0 supplyNow ecoMinted rewards : Nat) (approved : List (Nat × Nat)) : Bool :=
+  decide ((approved.map (·.1)).Nodup) &&
+  decide (supplyNow = supply0 + ecoMinted + rewards + (approved.map (·.2)).sum)
 
 /-- a message creates nothing: total supply (per denom, as listed) before = after -/
 def txSupplyOK (before after : List Nat) : Bool := before == after
